@@ -29,8 +29,8 @@ CHECKS = {
         design="5 C18"),
     "C19": dict(
         technique="Coq proof of gate_exact (exit = 0 <-> gate_spec) over a model of cmd/pyscn/check.go:runCheck; constants and comparison operators regenerated from the Go AST; CLI correspondence on boundary projects x flag/config/cwd combinations",
-        text="Coq model of runCheck (selection, flag-else-config-else-10 threshold, severity gate, cycle limit, issueCount arithmetic, exit code) with gate_exact : exit = 0 <-> gate_spec proved for all inputs; clones_never_fail; printed lines = violations; monotonicity. Correspondence: generated boundary projects x flag/config/cwd combinations on the real `pyscn check`, against the spec, against `pyscn analyze --json`, and against the model.",
-        note="assumes complexities >= 1 and --max-cycles >= 0; the literal 'any analysis could not run' clause is refuted for the informational clone analysis (F27, open known finding); F16 and F28 repaired by fix: commits; mock-data findings and clone pairs are read from check's own output.",
+        text="Coq model of runCheck (selection, flag-else-config-else-10 threshold, severity gate, cycle limit, issueCount arithmetic, exit code) with gate_exact : exit = 0 <-> gate_spec proved for all inputs; clones_never_fail; printed lines = violations; monotonicity. Correspondence: generated boundary projects x flag/config/cwd combinations on the real `pyscn check`, against the spec, against `pyscn analyze --json`, and against the model; target lists: every list of 1-2 targets over {directories, nested directory, plain files, file inside a directory}, every directory/file pattern of 3 targets, repeated / nested / missing targets, relative and absolute spellings, with the violating code in each file of the tree in turn, judged on the union of the selected files and against `pyscn analyze` on the same targets.",
+        note="assumes complexities >= 1 and --max-cycles >= 0; the literal 'any analysis could not run' clause is refuted for the informational clone analysis (F27, open known finding); open known findings C19-G1 (--select deps looks below the first target only) and C19-G2 (a plain-file target named twice is analysed and counted twice when all targets are files; verdict unaffected); F16 and F28 repaired by fix: commits; mock-data findings and clone pairs are read from check's own output.",
         design="5 C19"),
     "C02": dict(
         technique="Coq proof: every structurally unreachable statement (spec must_dead_block) is marked dead by the reachability abstraction Cfg/Flow.v, for every def at any depth; tie: pyscn findings at default severity must cover every must-be-dead statement under the def's qualified name",
